@@ -59,7 +59,7 @@ func finalKilledDuringLastView(out *scenOut, updates, shape int) {
 	ctl.viewOf = func(version, ups int) string {
 		if atomic.LoadInt32(&quitSeen) == 1 && atomic.CompareAndSwapInt32(&killed, 0, 1) {
 			<-ready
-			run.p.Kill() // (returns when the teardown it started is complete)
+			killNow(run.p) // (returns when the teardown it started is complete)
 		}
 		return finalView(shape, ups-1) // (-1: the size message)
 	}
@@ -106,7 +106,7 @@ func finalReleased(out *scenOut, updates, shape int) {
 	waitFor(2*time.Second, func() bool { return strings.Contains(buf.String(), "count 1") })
 	if err := run.p.ReleaseTerminal(); err != nil {
 		out.record(desc+" (release failed: "+err.Error()+")", "released-none")
-		run.p.Kill()
+		killNow(run.p)
 		run.wait(3 * time.Second)
 		return
 	}
@@ -169,7 +169,7 @@ func finalGated(out *scenOut, fps, updates, shape int, quitCmd bool) {
 	case <-w.entered:
 	case <-time.After(5 * time.Second):
 		close(w.release)
-		run.p.Kill()
+		killNow(run.p)
 		run.wait(5 * time.Second)
 		out.record(desc+" (first frame never written)", "gated-none")
 		return
@@ -376,7 +376,7 @@ func finalKillHoldsRenderer(out *scenOut, shape int) {
 	select {
 	case <-reached:
 	case <-time.After(3 * time.Second):
-		run.p.Kill()
+		killNow(run.p)
 		run.wait(3 * time.Second)
 		return
 	}
